@@ -510,14 +510,25 @@ def generate(ctx, scale=1.0, profile="all"):
     return inputs, gen_stats
 
 
-MEM_LIMIT = 4 << 30            # address-space limit of a worker: a runaway loop gets MemoryError, not the OOM killer
+MEM_LIMIT = 4 << 30            # address space a worker may ADD to what it inherited: a runaway loop gets
+                               # MemoryError, not the OOM killer
 
 
 def limit_memory():
+    """The limit is on the address space, and a forked worker starts with the parent's (which in the
+    thorough tier already holds all inputs: several GiB) - so it is set relative to the size the
+    worker has at its start.  (A fixed 4 GiB made the first mmap of a worker fail there: 'failed to
+    map segment from shared object' when it imported a compiled module.)"""
     import resource
+    try:
+        with open("/proc/self/statm") as f:
+            have = int(f.read().split()[0]) * resource.getpagesize()
+    except (OSError, ValueError):
+        have = 0
+    limit = have + MEM_LIMIT
     soft, hard = resource.getrlimit(resource.RLIMIT_AS)
-    if soft == resource.RLIM_INFINITY or soft > MEM_LIMIT:
-        resource.setrlimit(resource.RLIMIT_AS, (MEM_LIMIT, hard))
+    if soft == resource.RLIM_INFINITY or soft > limit:
+        resource.setrlimit(resource.RLIMIT_AS, (limit, hard))
 
 
 def run_pool(ctx, fn, jobs):
